@@ -233,12 +233,13 @@ def scenario_projects() -> List[Dict[str, Any]]:
     add("bracket-only-patterns", brk, ["HIDDEN:bk.test_[0-9]", "PRIVATE:bk.core.Impl[AB]"])
     add("bracket-negated-and-range", brk, ["HIDDEN:bk.test_[!0-9]", "PRIVATE:bk.core.Impl[B-C]", "PUBLIC:bk.core.ImplC"])
     add("bracket-then-exact-and-twice", brk, ["HIDDEN:bk.core.Impl[AB]", "PUBLIC:bk.core.ImplA", "PRIVATE:bk.test_[12]", "HIDDEN:bk.test_[12]"])
-    # identifiers outside ASCII: url percent-encodes them; a browser decodes the href before asking for the file
+    # identifiers outside ASCII: url percent-encodes them; a browser decodes the href before asking for the file (since
+    # b01e5ed the writer names the file by the decoded url; the crawl resolves hrefs percent-decoded, path and fragment)
     add("non-ascii-names", [
         U("na", "'''pkg'''\n", True),
         U("na.caf\u00e9", "'''module caf\u00e9'''\nclass Caf\u00e9:\n    '''c'''\n    def cr\u00e8me(self):\n        '''m'''\n"
                           "def gr\u00fc\u00dfe():\n    '''g'''\nclass Th\u00e9(Caf\u00e9):\n    '''t'''\n"),
-    ], [], oracle_only=True)
+    ], [])
     # several roots, one of them named `index`: its page and the project's IndexPage share index.html
     add("roots-named-index-and-other", [U("index", cls_src), U("other", "'''o'''\n")], [], oracle_only=True)
     add("roots-named-nameIndex-and-other", [U("nameIndex", cls_src), U("other", "'''o'''\n")], [], oracle_only=True)
